@@ -205,8 +205,8 @@ Section Run.
      from-imports, module attributes).  In module j the respelled tokens [ids_j] are a rename of j's own module-level
      name (when that name is linked to the target: Pb = []) or touch no binding of j at all (Pb = a path that owns
      nothing).  Evaluated per module: the hypotheses of C01_alpha_exact (exact_tree for ids_j, exactness on every core
-     token, freshness) and its conclusion; and that every `from a import y` at module level still names something
-     the (relabelled) module a binds at module level.
+     token, freshness) and its conclusion; and that every `from a import y` at module level (whose bound name is
+     bound by no other import of the module) still names something the (relabelled) module a binds at module level.
        0 not such a rename;  6 hypotheses and conclusion hold in every module, import links kept;
        7 some hypothesis fails (outside the theorem's domain), conclusion and links hold;
        8 hypotheses hold but the conclusion FAILS somewhere (would contradict C01_alpha_exact);
@@ -253,7 +253,8 @@ Section Run.
                       match okind_of (t_occ u), t_env u with
                       | KImportName, [] =>
                           let bound := match t_role u with RAliased k => k | _ => t_name u end in
-                          match last_import (x_imports xj) bound with
+                          match (if Nat.eqb (length (filter (fun e => N.eqb (fst e) bound) (x_imports xj))) 1
+                                 then last_import (x_imports xj) bound else None) with
                           | Some (TName a z) =>
                               match find_mod cx a with
                               | Some ia =>
